@@ -59,7 +59,13 @@ func (b *setextHeadingParser) Open(parent ast.Node, reader text.Reader, pc Conte
 		return nil, NoChildren
 	}
 	line, segment := reader.PeekLine()
-	c, ok := matchesSetextHeadingBar(line)
+	pos := pc.BlockOffset()
+	if pos < 0 {
+		return nil, NoChildren
+	}
+	// the indentation (at most 3 columns, possibly written with a tab) has been measured
+	// by the block parser loop
+	c, ok := matchesSetextHeadingBar(line[pos:])
 	if !ok {
 		return nil, NoChildren
 	}
